@@ -1,6 +1,6 @@
 /* cstl_mmap.h -- contract of std::multimap<K,V> with node pool.  X-include: CSTL_NAME, CSTL_K,
- * CSTL_V, CSTL_NP.  Only begin(), emplace(), erase(it), size(), clear(), it-> are modelled (all
- * libcappuccino uses).  begin() is an entry with the minimal key; among equal keys
+ * CSTL_V, CSTL_NP.  begin(), ++it/std::next(it), emplace(), erase(it), size(), clear(), it-> are modelled (libcappuccino uses all
+ * but the iterator increment).  begin() is an entry with the minimal key; among equal keys
  *   native build: the earliest inserted (C++11 [associative.reqmts]: emplace inserts at the upper
  *                 bound), so the co-simulation agrees with libstdc++;
  *   CBMC build:   ANY of the minimal entries (over-approximation: the properties never depend on
@@ -62,10 +62,46 @@ static inline cstl_iter F_(_begin)(const MP_ *P, const M_ *m)
     return r;
 #endif
 }
+static inline cstl_iter F_(_end)(const MP_ *P, const M_ *m) { (void)P; (void)m; return F_(_END); }
 static inline MN_ *F_(_deref)(MP_ *P, cstl_iter it)
 {
     CSTL_ASSERT(F_(_deref_ok)(P, it), "std.multimap.iterator->: iterator valid and not end() [C08]");
     return &P->kv[it];
+}
+/* ++it / std::next(it): the in-order successor, end() after the last entry.  Among equal keys
+ *   native build: insertion order (as begin());
+ *   CBMC build:   ANY entry that may follow `it` in SOME order of the ties: an entry with a key >= it's key and no entry
+ *                 strictly between the two keys; end() only if no entry has a larger key (over-approximation);
+ *   relational:   ties in node-id order (a function of the content). */
+static inline cstl_iter F_(_next)(const MP_ *P, cstl_iter it)
+{
+    CSTL_ASSERT(F_(_deref_ok)(P, it), "std.multimap.iterator++: iterator valid and not end() [C08]");
+#if defined(CSTL_CBMC) && !defined(CSTL_DETERMINISTIC)
+    cstl_iter r = nondet_u64();
+    CSTL_ASSUME(r == F_(_END) || (r < CSTL_NP && r != it && P->alive[r] && !(P->kv[r].first < P->kv[it].first)));
+    for (cstl_iter n = 0; n < CSTL_NP; n++)
+    {
+        if (!P->alive[n] || n == it || n == r) continue;
+        if (r == F_(_END)) CSTL_ASSUME(!(P->kv[it].first < P->kv[n].first));
+        else CSTL_ASSUME(!(P->kv[it].first < P->kv[n].first && P->kv[n].first < P->kv[r].first));
+    }
+    return r;
+#else
+    cstl_iter r = F_(_END);
+    for (cstl_iter n = 0; n < CSTL_NP; n++)
+    {
+        if (!P->alive[n] || n == it) continue;
+#ifdef CSTL_CBMC
+        bool after = P->kv[it].first < P->kv[n].first || (P->kv[n].first == P->kv[it].first && it < n);
+        bool closer = r == F_(_END) || P->kv[n].first < P->kv[r].first || (P->kv[n].first == P->kv[r].first && n < r);
+#else
+        bool after = P->kv[it].first < P->kv[n].first || (P->kv[n].first == P->kv[it].first && P->seq[it] < P->seq[n]);
+        bool closer = r == F_(_END) || P->kv[n].first < P->kv[r].first || (P->kv[n].first == P->kv[r].first && P->seq[n] < P->seq[r]);
+#endif
+        if (after && closer) r = n;
+    }
+    return r;
+#endif
 }
 static inline cstl_iter F_(_emplace)(MP_ *P, M_ *m, CSTL_K k, CSTL_V v)
 {
